@@ -32,7 +32,7 @@ func nested(p sim.Profile, prob float64) sim.Profile {
 	return p
 }
 
-// big: the same kind of history on a cluster of 25-64 nodes, fewer steps.
+// big: the same kind of history on a cluster of 25-104 nodes, fewer steps.
 func big(p sim.Profile) sim.Profile {
 	p.Name += "-big"
 	p.Big = true
